@@ -190,7 +190,7 @@ func gen(stream string, seed uint64, n int, outp string) {
 				if r.Chance(1, 3) {
 					// a Sidecar with ingress listeners (some with user TLS) instead of service-derived chains
 					var ing []string
-					for _, p := range []uint32{80, 8080, 9000, 9090} {
+					for _, p := range []uint32{80, 8080, 9000, 9090, 81, 8081} {
 						if r.Chance(1, 2) {
 							proto := wire.Pick(r, []string{"tcp", "http", "http", "tcp", "auto"})
 							// user TLS needs a protocol that says what is behind the TLS (HTTPS / TLS)
@@ -199,6 +199,11 @@ func gen(stream string, seed uint64, n int, outp string) {
 						}
 					}
 					if len(ing) > 0 {
+						if r.Chance(1, 8) {
+							// a proxy without iptables redirection: every ingress listener binds to its port
+							out.Line("ils", wire.Enc(ns), encLabels(labels), wire.EncList(ing), "0", "1")
+							break
+						}
 						out.Line("ils", wire.Enc(ns), encLabels(labels), wire.EncList(ing), wire.B(r.Chance(1, 3)))
 						break
 					}
@@ -207,13 +212,28 @@ func gen(stream string, seed uint64, n int, outp string) {
 					// the composed client decision end to end; mostly an ordinary in-mesh service
 					kind := "normal"
 					if r.Chance(1, 3) {
-						kind = wire.Pick(r, []string{"noistio", "external", "passthrough", "ptdisabled"})
+						kind = wire.Pick(r, []string{"noistio", "external", "passthrough", "ptdisabled", "drpassthrough", "drptdisabled", "drdisable", "dristio"})
 					}
-					out.Line("cl", wire.Enc(ns), encLabels(labels), wire.Enc(wire.Pick(r, nsPool)), kind)
+					out.Line("cl", wire.Enc(ns), encLabels(labels), wire.Enc(wire.Pick(r, nsPool)), kind, strconv.Itoa(int(wire.Pick(r, []uint32{80, 80, 8080, 9000}))))
 					break
 				}
 				if r.Chance(1, 5) {
 					out.Line("ilh", wire.Enc(ns), encLabels(labels))
+					break
+				}
+				if r.Chance(1, 5) {
+					// other service protocols, fewer services, a proxy without services
+					names := []string{"HTTP", "HTTP2", "GRPC", "TCP", "HTTPS", "TLS", "Mongo", "UDP", "", "none", "none"}
+					if r.Chance(1, 6) {
+						names = []string{"none"}
+					}
+					ps := []string{wire.Pick(r, names), wire.Pick(r, names), wire.Pick(r, names), wire.Pick(r, names)}
+					for i := range ps {
+						if ps[i] == "" {
+							ps[i] = "UNSUPPORTED"
+						}
+					}
+					out.Line("ilp", wire.Enc(ns), encLabels(labels), strings.Join(ps, ":"))
 					break
 				}
 				out.Line("il", wire.Enc(ns), encLabels(labels))
